@@ -457,7 +457,7 @@ def prepare_corpus(chk, pid, tier, seed, outdir):
         return dict(results=results, inconclusive=inconclusive)
     ok1, out1 = chk.build("native", "corpus", feat, tsuffix)             # items only
     if not ok1:
-        mine = {"c12": r"gen/p\d+\.rs", "c05": r"gen/e\d+\.rs", "c16": r"gen/t\d+\.rs"}[feat]
+        mine = {"c12": r"gen/p\d+\.rs", "c05": r"gen/e\d+\.rs", "c16": r"gen/t\w+\.rs"}[feat]
         files = sorted(set(re.findall(mine, out1)))
         if files:
             rep = dict(property=pid, monitor=feat, evaluations=1, distinct=1, distinct_hashes=["0" * 16], samples=[],
